@@ -1,5 +1,5 @@
 SPECIFICATION Spec
 CONSTANTS
-  MaxLen = 4
+  MaxLen = 3
   ShellLen = 3
 INVARIANT Emit
